@@ -11,7 +11,26 @@ use crate::forkrun::{run_forked, ChildFail};
 use crate::ops::{Obs, Op};
 use crate::plan::{Call, CallOut, Outcome, Plan, Sched};
 
+/// Watchdog for one operation in its reference context. An operation slower than this is
+/// unusable as a call (its reference is `None`, it is dropped from plans or left unjudged).
+pub const REF_TIMEOUT_MS: i32 = 5_000;
+/// Watchdog floor for a whole plan.
 pub const CHILD_TIMEOUT_MS: i32 = 30_000;
+
+/// Watchdog for a plan: every call is known to finish within REF_TIMEOUT_MS in its
+/// reference context, so a sequential plan that needs more than that per call plus 30 s of
+/// slack has a call that does not return where its reference does.
+pub fn plan_timeout_ms(plan: &Plan) -> i32 {
+    let calls = plan.threads.iter().map(|t| t.len()).sum::<usize>() + plan.sentinel.len();
+    if plan.shuttle {
+        // an interleaved run that blocks the simulator for real (a blocking primitive without
+        // a hook) should be noticed quickly; it is then re-run sequentially, not reported
+        CHILD_TIMEOUT_MS + 2_000 * calls as i32
+    } else {
+        // at least the sum of what the calls may take in their reference contexts, plus slack
+        CHILD_TIMEOUT_MS / 2 + (REF_TIMEOUT_MS + 1_000) * calls as i32
+    }
+}
 
 /// The canonical form of an operation: what the reference context executes.
 pub fn canon_op(op: &Op) -> Op {
@@ -84,7 +103,7 @@ impl RefTable {
             return v.clone();
         }
         self.computed += 1;
-        let v = match run_forked(&ref_plan(op, env), CHILD_TIMEOUT_MS) {
+        let v = match run_forked(&ref_plan(op, env), REF_TIMEOUT_MS) {
             Ok(o) if o.harness_error.is_none() && o.calls.len() == 1 && o.calls[0].len() == 1 => {
                 Some(o.calls[0][0].obs.clone())
             }
@@ -235,6 +254,11 @@ fn judge(
         *env = value.clone();
         return;
     }
+    if out.obs.class == "noreturn" && res.violations.iter().any(|v| v.phase == "execution") {
+        // the execution as a whole died (deadlock, step cap) and that is reported once;
+        // the calls it took with it are consequences, not separate findings
+        return;
+    }
     if out.fault_fired {
         // the one deliberate relaxation: the call that received the panic fault panics
         res.judged += 1;
@@ -361,7 +385,8 @@ fn refs_all_alive(plan: &Plan, refs: &mut RefTable) -> bool {
 /// OS thread can also block because of a blocking primitive the shadow locks do not model,
 /// which is a limit of the harness, so a timeout there stays a harness error.
 pub fn run_and_check(plan: &Plan, refs: &mut RefTable) -> Result<(Outcome, CheckResult), String> {
-    match run_forked(plan, CHILD_TIMEOUT_MS) {
+    let timeout = plan_timeout_ms(plan);
+    match run_forked(plan, timeout) {
         Ok(out) => {
             let res = check_outcome(plan, &out, refs);
             Ok((out, res))
@@ -375,12 +400,12 @@ pub fn run_and_check(plan: &Plan, refs: &mut RefTable) -> Result<(Outcome, Check
                 res.unjudged = 1;
                 return Ok((Outcome::default(), res));
             }
-            match run_forked(plan, CHILD_TIMEOUT_MS) {
+            match run_forked(plan, timeout) {
                 Err(ChildFail::Timeout) => {
                     res.judged = 1;
                     res.violations.push(execution_violation(
                         "no-return",
-                        format!("sequential execution did not finish within {CHILD_TIMEOUT_MS} ms although every call returns in its reference context"),
+                        format!("sequential execution did not finish within {timeout} ms although every call returns within {REF_TIMEOUT_MS} ms in its reference context"),
                     ));
                     Ok((Outcome::default(), res))
                 }
@@ -395,7 +420,7 @@ pub fn run_and_check(plan: &Plan, refs: &mut RefTable) -> Result<(Outcome, Check
                 res.unjudged = 1;
                 return Ok((Outcome::default(), res));
             }
-            match run_forked(plan, CHILD_TIMEOUT_MS) {
+            match run_forked(plan, timeout) {
                 Err(ChildFail::Signal(s2)) if s2 == sig => {
                     res.judged = 1;
                     res.violations.push(execution_violation(
